@@ -32,6 +32,10 @@ CLAIMED = {
   "text": "Bounded symbolic model checking of the real AccountDB journal: for every mutator (15 kinds x 3 accounts x slots/amounts, symbolic value byte), one and two levels of Snapshot/Revert, from a committed state reopened cold and optionally dirtied, all observers answer as at the snapshot and the state root equals that of a twin on which the reverted operations never ran.",
   "note": "Trusted: gosym and its models, z3. Four instances of one genuine defect are listed as known findings (Empty() not restored after reverting a storage write on an account without cached storage). Histories of at most three mutators.",
  },
+ "C13": {
+  "text": "Bounded symbolic model checking of the node's own key generation and threshold recovery (groupNodeInfo.handleSharePiece/aggregateKeys, groupsig.ShareSeckey/AggregateSeckeys/AggregatePubkeys/Sign/VerifySig/RecoverGroupSignature/recoverSignature, model.GroupSignGenerator) with every dealer polynomial coefficient symbolic: each member's share verifies under its public share, all members derive the group key of the summed dealer secrets, and every threshold subset in every arrival order and every map iteration order recovers the one signature that verifies under the group key.",
+  "note": "Trusted: gosym and its models, z3, and the symbolic prime-order algebra standing in for the bn256 curve (validated on sampled paths against the real pairing library). Member ids are concrete tables, group sizes 3..7 (9 for subsets): larger groups and symbolic ids are outside.",
+ },
  "C16": {
   "text": "Bounded symbolic model checking of the parts of the VRF path that are integer/byte computations: (a) header transport - for every 80-byte proof, the big-integer prove value (leading zeros dropped) padded back by the real tryZeroPadding copies is the original proof, and padding never panics for any length; (b) qualification - through the real validateProve/calQn (big.Rat + float64 modelled as reals with an interval rounding model), for every 256-bit lottery value and each enumerated stake/working/height combination there is no panic and an accepted proof has 1 <= qn <= MaxQN.",
   "note": "Trusted: gosym and its models, z3, interval model of float64 rounding. The elliptic-curve clauses of the property (completeness, mutation soundness, unique lottery output) are NOT decided: edwards25519 arithmetic and SHA-512 on symbolic input are outside the encoding's reach. One genuine defect found and fixed (qn = MaxQN+1 for lottery values in the top sliver).",
